@@ -47,6 +47,33 @@ Theorem C06_gen_eh_formats :
 Proof. exact gen_eh_formats. Qed.
 Print Assumptions C06_gen_eh_formats.
 
+(* the construct trees of the three call frame header structs (walked on the live DWARFStructs for
+   every byte order x format x address size) are the field lists of DWARF 5 7.24 / 6.4.1 *)
+Theorem C06_gen_headers_are_spec :
+  gen_Dwarf_CIE_header =
+    [("length", HInitLen); ("CIE_id", HOffset); ("version", HU 1); ("augmentation", HCStr);
+     ("address_size", HIfVer 4 (HU 1) HNone); ("segment_size", HIfVer 4 (HU 1) HNone);
+     ("code_alignment_factor", HUleb); ("data_alignment_factor", HSleb);
+     ("return_address_register", HIfVer 2 HUleb (HU 1))]%string
+  /\ gen_EH_CIE_header = gen_Dwarf_CIE_header
+  /\ gen_Dwarf_FDE_header =
+    [("length", HInitLen); ("CIE_pointer", HOffset); ("initial_location", HAddr);
+     ("address_range", HAddr)]%string.
+Proof. exact gen_headers_are_spec. Qed.
+Print Assumptions C06_gen_headers_are_spec.
+
+(* ... and the hand model of those structs is the interpretation of the generated layouts, on
+   ALL byte strings (so an edit of _create_callframe_entry_headers breaks a proof) *)
+Theorem C06_model_CIE_header_is_gen : forall St bs,
+  Dwarf_CIE_header St bs = pmap cie_header_of (parse_layout St [] gen_Dwarf_CIE_header) bs.
+Proof. exact model_CIE_header_is_gen. Qed.
+Print Assumptions C06_model_CIE_header_is_gen.
+
+Theorem C06_model_FDE_header_is_gen : forall St bs,
+  Dwarf_FDE_header St bs = pmap fde_header_of (parse_layout St [] gen_Dwarf_FDE_header) bs.
+Proof. exact model_FDE_header_is_gen. Qed.
+Print Assumptions C06_model_FDE_header_is_gen.
+
 (* ------------------------------------------------------------------ instruction split *)
 (* any well-formed instruction list (all opcodes, any valid LEB128 padding, blocks), encoded at
    any position of any stream, is split into exactly its opcodes and operands, and the cursor
